@@ -86,7 +86,7 @@ def hidden_state_inventory(ctx, rule, rs_cells):
         else:
             ctx.fail(rule, key, "-", "thread-local %s (payload %s) is used on the search path and is not covered by RS" % (k, payload),
                      kind="S")
-    ctx.floor(rule, "interior_mutable_cells", n, 10)
+    ctx.floor(rule, "interior_mutable_cells", n, 4)
 
 
 def _singletons(ctx):
